@@ -230,6 +230,9 @@ func (c *simConn) Write(p []byte) (int, error) {
 	case "timeout":
 		return n, timeoutErr{}
 	case "closed":
+		// the connection turns out to be closed already (by the peer's reset or alike)
+		c.closed = true
+		c.cond.Broadcast()
 		return n, net.ErrClosed
 	case "hard":
 		return n, errHard
